@@ -3,7 +3,7 @@
    and compared numerically by the correspondence run). *)
 From Coq Require Import QArith String.
 From BMC Require Import Base Prim PrimProofs Layers Proc SensorProofs.
-From BMCProps Require Import TiePrim.
+From BMCProps Require Import TieLin.
 Local Close Scope Q_scope.
 Local Open Scope N_scope.
 
@@ -40,8 +40,3 @@ Theorem C15_lineariser_table_tie :
                    (10, "LineariserFunc math Sqrt"); (11, "LineariserFunc f float64 float64 math Cbrt f")]%string
   /\ G.LinearisationLinear = 0 /\ G.LinearisationNonLinear = 12.
 Proof. exact tie_linearisers. Qed.
-Theorem C15_parser_table_tie :
-  G.analog_parsers = [(0, "AnalogDataFormatParserFunc parseAnalogDataFormatUnsigned");
-                      (1, "AnalogDataFormatParserFunc parseAnalogDataFormatOnesComplement");
-                      (2, "AnalogDataFormatParserFunc parseAnalogDataFormatTwosComplement")]%string.
-Proof. exact tie_analog_parsers. Qed.
